@@ -59,6 +59,9 @@ JSON JSON::parse(StringReader& r, bool disable_extensions) {
       }
 
       JSON key = JSON::parse(r, disable_extensions);
+      if (!key.is_string()) {
+        throw parse_error("dictionary key is not a string; pos=" + to_string(r.where()));
+      }
       skip_whitespace_and_comments(r, disable_extensions);
 
       if (r.get_s8() != ':') {
